@@ -30,7 +30,7 @@ pub struct C18;
 /// exercise every piece of mutable state; the rest are pairs that a lossy
 /// process-wide cache key would confuse (flags that look like a pattern prefix,
 /// same pattern under different flags, same text under the other dialect).
-const POOL: [(&str, &str, [&str; 2], &str); 16] = [
+const POOL: [(&str, &str, [&str; 2], &str); 17] = [
     ("(a)(b)?", "", ["aab", "xab -- 0123456789 0123456789 0123456789 0123456789 0123456789 -- a -- ab ...."], "<$1|$2>"),
     ("(?:a?|b)*c", "", ["cabc", "aab 0123456789 0123456789 0123456789 0123456789 0123456789 xx abc xx c tail.."], "<$0>"),
     ("(a)\\1|b", "i", ["aAb", "ab 0123456789 0123456789 0123456789 0123456789 0123456789 xx aA xx Aa tail.."], "<$1>"),
@@ -52,6 +52,9 @@ const POOL: [(&str, &str, [&str; 2], &str); 16] = [
     ("^((?:ab?)*|c)c?d", "", ["cd", "ccd 0123456789 0123456789 0123456789 0123456789 0123456789 0123456789 tail."], "[$1]"),
     // a non-ASCII literal prefix under flag i
     ("\u{e9}\\d", "i", ["x\u{c9}1y", "abc 0123456789 0123456789 0123456789 0123456789 0123456789 \u{c9}2 \u{e9}3 tail"], "-"),
+    // empty groups nested in an empty group: the entries of analyze and their nesting must be
+    // the same on every call (nothing may depend on the iteration order of a hash map)
+    ("x((y?)(z?))", "", ["xx", "axyzx 0123456789 0123456789 0123456789 0123456789 0123456789 xy -- xz x tail"], "[$1|$2|$3]"),
     // an invalid replacement string: the same error on every call
     ("b", "", ["abc", "xab 0123456789 0123456789 0123456789 0123456789 0123456789 -- b -- ab ...."], "x$y"),
 ];
@@ -809,7 +812,7 @@ impl Check for C18 {
         let depth = history_depth(ctx.tier);
         let npairs = pair_chunks(ctx.tier);
         Plan {
-            chunks: np + ns * nb + 2 + pair_chunks(ctx.tier) + FATIGUE.len() as u64 + POOL.len() as u64,
+            chunks: np + ns * nb + 2 + pair_chunks(ctx.tier) + FATIGUE.len() as u64 + POOL.len() as u64 + proc_chunks(),
             layer_of: Box::new(move |c| {
                 if c < np {
                     format!("histories to depth {}", depth)
@@ -823,8 +826,10 @@ impl Check for C18 {
                     "ordered pairs of compilations on one thread".to_string()
                 } else if c < np + ns * nb + 2 + npairs + FATIGUE.len() as u64 {
                     "long sequences of compilations on one thread".to_string()
-                } else {
+                } else if c < np + ns * nb + 2 + npairs + FATIGUE.len() as u64 + POOL.len() as u64 {
                     "a dozen failing calls, then every call".to_string()
+                } else {
+                    "ordered pairs of compilations, each pair in its own process".to_string()
                 }
             }),
             description: format!(
@@ -968,8 +973,10 @@ impl Check for C18 {
                 pair_chunk(ctx.tier, k, out);
             } else if k < pair_chunks(ctx.tier) + FATIGUE.len() as u64 {
                 fatigue_chunk((k - pair_chunks(ctx.tier)) as usize, out);
-            } else {
+            } else if k < pair_chunks(ctx.tier) + FATIGUE.len() as u64 + POOL.len() as u64 {
                 call_fatigue_chunk((k - pair_chunks(ctx.tier) - FATIGUE.len() as u64) as usize, out);
+            } else {
+                proc_chunk(k - pair_chunks(ctx.tier) - FATIGUE.len() as u64 - POOL.len() as u64, out);
             }
             return;
         }
@@ -1088,6 +1095,114 @@ fn pair_list(tier: Tier) -> Vec<(usize, usize)> {
         }
     }
     v
+}
+
+// ---------------------------------------------------------------------------
+// ordered pairs, one process each (process-wide lazily built state)
+
+/// Patterns whose compilation consults tables that are built once per process (block and
+/// category tables, case data): whichever compilation comes first in a process must not
+/// decide what a later one means. Every ordered pair (A, B) of (pattern, dialect, flags)
+/// runs in a process of its own - compile A and use it, compile B and observe it - and B
+/// must behave as in a process where it is alone.
+const PROC_PATTERNS: [&str; 8] = ["\\p{IsBasicLatin}", "\\P{IsHighSurrogates}", "\\p{IsPrivateUse}", "\\p{Lu}", "[\\p{IsGreek}-[\\p{Lu}]]", "\\w", "\\i", "k"];
+const PROC_FLAGS: [&str; 2] = ["", "i"];
+const PROC_INPUTS: [&str; 8] = ["a", "A", "\u{3b1}", "\u{391}", "\u{e000}", "\u{f0000}", "\u{212a}", "_"];
+
+fn n_proc_triples() -> usize {
+    PROC_PATTERNS.len() * PROC_FLAGS.len() * 2
+}
+
+fn proc_triple(t: usize) -> (&'static str, &'static str, bool) {
+    let xsd = t % 2 == 1;
+    let f = (t / 2) % PROC_FLAGS.len();
+    (PROC_PATTERNS[t / 2 / PROC_FLAGS.len()], PROC_FLAGS[f], xsd)
+}
+
+fn proc_surface(t: usize) -> String {
+    let (p, f, xsd) = proc_triple(t);
+    match imp::compile(p, f, xsd) {
+        Out::Ok(re) => {
+            let mut v = vec!["Ok".to_string()];
+            for inp in PROC_INPUTS {
+                v.push(imp::surface(&re, inp, "<$0>").show());
+            }
+            v.join(" ;; ")
+        }
+        o => o.map(|_| ()).show(),
+    }
+}
+
+/// `rxmc c18procpair <a|-> <b>`: in this (fresh) process compile and use A, then B; print B.
+pub fn proc_pair_main(a: Option<usize>, b: usize) {
+    if let Some(a) = a {
+        let _ = proc_surface(a);
+    }
+    println!("{}", crate::util::vis(&proc_surface(b)));
+}
+
+const PROC_PER_CHUNK: usize = 64;
+
+fn proc_chunks() -> u64 {
+    let n = n_proc_triples();
+    ((n * n + PROC_PER_CHUNK - 1) / PROC_PER_CHUNK) as u64
+}
+
+fn proc_chunk(k: u64, out: &mut ChunkOut) {
+    let n = n_proc_triples();
+    let exe = std::env::current_exe().expect("current exe");
+    let run = |a: Option<usize>, b: usize| -> Option<String> {
+        let o = std::process::Command::new(&exe).arg("c18procpair").arg(a.map_or("-".to_string(), |x| x.to_string())).arg(b.to_string()).output().ok()?;
+        let s = crate::util::unvis(String::from_utf8_lossy(&o.stdout).trim());
+        if s.is_empty() {
+            None
+        } else {
+            Some(s)
+        }
+    };
+    let lo = k as usize * PROC_PER_CHUNK;
+    let hi = (lo + PROC_PER_CHUNK).min(n * n);
+    let mut solo: HashMap<usize, Option<String>> = HashMap::new();
+    let mut distinct = BTreeSet::new();
+    for idx in lo..hi {
+        let (a, b) = (idx / n, idx % n);
+        out.inc("states");
+        out.add("api_steps", 2 * (1 + 4 * PROC_INPUTS.len() as u64));
+        let want = solo.entry(b).or_insert_with(|| run(None, b)).clone();
+        let got = run(Some(a), b);
+        let (want, got) = match (want, got) {
+            (Some(w), Some(g)) => (w, g),
+            _ => {
+                out.inc("machinery_proc_pair_missing");
+                continue;
+            }
+        };
+        out.inc("validated");
+        distinct.insert(crate::util::fnv(&got));
+        if want != got {
+            let (pa, fa, xa) = proc_triple(a);
+            let (pb, fb, xb) = proc_triple(b);
+            let mut case = Case::new("PROCPAIR", &format!("{} then {}", pa, pb), &format!("{} then {}", fa, fb));
+            case.dialect = match (xa, xb) {
+                (false, false) => "xpath then xpath",
+                (false, true) => "xpath then xsd",
+                (true, false) => "xsd then xpath",
+                (true, true) => "xsd then xsd",
+            };
+            case.api = "second".to_string();
+            let d = J::obj(vec![
+                ("property", J::s("C18")),
+                ("kind", J::s("CompilationDependsOnEarlierOne")),
+                ("sequence", J::s(format!("in a fresh process: compile({:?},{:?},{}) and use it; compile({:?},{:?},{}) and use it", pa, fa, if xa { "xsd" } else { "xpath" }, pb, fb, if xb { "xsd" } else { "xpath" }))),
+                ("expected", J::s(&want)),
+                ("observed", J::s(&got)),
+                ("note", J::s("expected = the second triple compiled and observed alone in a fresh process (rxmc c18procpair - <b>)")),
+            ]);
+            out.failures.push(Failure { key: case.key("C18", "CompilationDependsOnEarlierOne"), detail: d });
+        }
+    }
+    out.add("nontrivial", distinct.len() as u64);
+    out.sample(J::obj(vec![("process_pairs", J::i(hi - lo))]));
 }
 
 const PAIRS_PER_CHUNK: usize = 512;
